@@ -126,6 +126,7 @@ func (r *run) observe() map[string]string {
 	for k, h := range r.verHist {
 		obs["userdoc-versions:"+k] = strings.Join(h, " ")
 	}
+	obs["rest-calls"] = strings.Join(r.restLog, " | ")
 	var pubs []string
 	for _, p := range w.br.pubs {
 		var n notif
